@@ -248,6 +248,17 @@ macro_rules! version {
                         }
                         // datums carried by outputs / witness set
                         for (o, mo) in tx.outputs().iter().zip(m.outputs.iter()) {
+                            // datum hash: Blake2b-256 of the datum bytes as they are on the wire (inline), or the carried hash
+                            let got_hash = mo.datum.as_ref().map(|x| x.hash.to_vec()).unwrap_or_default();
+                            match o.datum() {
+                                Some(pallas_primitives::babbage::DatumOption::Data(d)) => {
+                                    if got_hash != pallas_crypto::hash::Hasher::<256>::hash(d.raw_cbor()).to_vec() { fails.push("output-datum-hash"); }
+                                }
+                                Some(pallas_primitives::babbage::DatumOption::Hash(h)) => {
+                                    if got_hash != h.to_vec() { fails.push("output-datum-hash"); }
+                                }
+                                None => {}
+                            }
                             if let Some(pallas_primitives::babbage::DatumOption::Data(d)) = o.datum() {
                                 let got = mo.datum.as_ref().and_then(|x| x.payload.as_ref()).and_then(u_sem);
                                 if got != Some(p_sem(&d.0)) { fails.push("output-datum"); }
@@ -323,8 +334,11 @@ fn gen_tx_bytes(rng: &mut Rng, legacy: bool) -> Vec<u8> {
         let mut addr = vec![0x61u8]; addr.extend(rng.bytes(28));
         let coin = rng.edge_u64();
         let n_pol = rng.below(3);
+        // post-Alonzo outputs carry, half of the time, a datum option: an inline datum in one of several
+        // valid but not necessarily canonical encodings (wide ints, indefinite strings/arrays/maps, bignums), or a hash
+        let datum_kind = if legacy { 0 } else { rng.below(4) };
         if legacy { e.array(2).unwrap(); e.bytes(&addr).unwrap(); }
-        else { e.map(2).unwrap(); e.u8(0).unwrap(); e.bytes(&addr).unwrap(); e.u8(1).unwrap(); }
+        else { e.map(if datum_kind == 0 { 2 } else { 3 }).unwrap(); e.u8(0).unwrap(); e.bytes(&addr).unwrap(); e.u8(1).unwrap(); }
         if n_pol == 0 { e.u64(coin).unwrap(); }
         else {
             e.array(2).unwrap(); e.u64(coin).unwrap();
@@ -342,7 +356,16 @@ fn gen_tx_bytes(rng: &mut Rng, legacy: bool) -> Vec<u8> {
                 }
             }
         }
-    }
+            if datum_kind != 0 {
+            const DATUMS: [&[u8]; 12] = [&[0x05], &[0x18, 0x05], &[0x1a, 0, 0, 0x03, 0xe8], &[0x1b, 0, 0, 0, 0, 0, 0, 0x03, 0xe8],
+                &[0x5f, 0x41, 0x01, 0xff], &[0x9f, 0x01, 0x02, 0xff], &[0x82, 0x01, 0x02], &[0xd8, 0x79, 0x9f, 0x01, 0xff],
+                &[0xc2, 0x41, 0x01], &[0xa0], &[0xbf, 0x01, 0x02, 0xff], &[0x3b, 0xff, 0xff, 0xff, 0xff, 0xff, 0xff, 0xff, 0xff]];
+            e.u8(2).unwrap();
+            e.array(2).unwrap();
+            if datum_kind == 1 { e.u8(0).unwrap(); e.bytes(&rng.bytes(32)).unwrap(); }
+            else { let d = DATUMS[rng.below(DATUMS.len() as u64) as usize]; e.u8(1).unwrap(); e.tag(minicbor::data::Tag::new(24)).unwrap(); e.bytes(d).unwrap(); }
+        }
+}
     e.u8(2).unwrap(); e.u64(rng.edge_u64()).unwrap();
     if has_ttl { e.u8(3).unwrap(); e.u64(rng.edge_u64()).unwrap(); }
     e.map(0).unwrap();
